@@ -232,7 +232,7 @@ class SpecEval:
                 k = kk
                 bound_sv = SV(coll.ty.k, [kk])
                 guards = [cx.heap.dict_has(coll.ty.k, coll.term, kk)]
-            elif isinstance(coll.ty, TMapSeq):
+            elif isinstance(coll.ty, (TMapSeq, TKeySet)):
                 kk = z3.Const(fresh_name(name), coll.ty.k.comps()[0])
                 k = kk
                 bound_sv = SV(coll.ty.k, [kk])
@@ -283,6 +283,9 @@ class SpecEval:
                 a = self.sev(e.args[0], cx); b = self.sev(e.args[1], cx)
                 cx.facts.append(sext(a.term, b.term))
                 return mk_bool(a.term == b.term)
+            if n == 'keyset':
+                d = self.sev(e.args[0], cx)
+                return SV(TKeySet(d.ty.k), [z3.Select(cx.heap.get(cx.heap.dict_has_key(d.ty.k))[0], d.term)])
             if n == 'dictview':
                 # immutable view key -> tuple(list) of a dict of lists, in the current heap
                 d = self.sev(e.args[0], cx)
@@ -296,6 +299,9 @@ class SpecEval:
                 lens = z3.Lambda([kk], z3.Select(h.get(h.list_len_key())[0], lref))
                 arrs = z3.Lambda([kk], z3.Select(h.get(h.list_arr_keys(d.ty.v.elem)[0])[0], lref))
                 return SV(TMapSeq(d.ty.k, d.ty.v.elem), [has, lens, arrs])
+            if n == 'allocated':
+                v = self.sev(e.args[0], cx)
+                return mk_bool(z3.And(v.term != 0, cx.heap.is_alloc(v.term)))
             if n == 'cast':
                 cls = self.sev(e.args[0], cx).py.obj
                 v = self.sev(e.args[1], cx)
